@@ -1,6 +1,6 @@
 (* Lemmas for C09: the coding returned by the detector can represent the text. *)
 From V Require Import Model.Base Model.IntervalMap Spec.Iso8859 Spec.Utf16 Gen.Charsets Model.Charset
-  Gen.Detect Gen.KnownBad Model.Detect Proofs.CharsetProofs Proofs.DetectBits.
+  Gen.Detect Gen.KnownBad Model.Detect Proofs.CharsetProofs Proofs.CharsetRoundtrip Proofs.DetectBits.
 From Coq Require Import ZifyN ZifyNat ZifyBool Arith.
 Ltac Zify.zify_post_hook ::= Z.div_mod_to_equations.
 Open Scope N_scope.
@@ -39,101 +39,6 @@ Proof.
   assert (H : forallb (fun r => mem r (validate_ranges l)) rs = true).
   { destruct l as [|c]; [exact Hv|]. destruct c; try exact Hv. contradiction Hl. reflexivity. }
   rewrite forallb_forall in H. exact (H r Hin).
-Qed.
-
-(* ------------------------------------------- single-octet decoders invert *)
-Section SingleOctetDecode.
-  Variable tbl : list N.
-  Variable t : runs.
-  Definition runD (q : run) : bool :=
-    let '(lo, hi, n, v) := q in
-    (n =? 1) && (lo <=? hi) && (v + (hi - lo) <? 256) &&
-    forall_in lo hi (fun r => match nth_error tbl (N.to_nat (v + (r - lo))) with
-                              | Some r' => r' =? r | None => false end).
-  Definition checkD : bool := forallb runD t.
-  Hypothesis HD : checkD = true.
-
-  Theorem sb_roundtrip : forall rs bs, encode_t t rs = Ok bs -> decode_sb tbl bs = Ok rs.
-  Proof.
-    induction rs as [|r rest IH]; intros bs H; cbn [encode_t] in H.
-    - injection H as <-. reflexivity.
-    - unfold enc_rune_t in H. destruct (lookup r t) as [[n x]|] eqn:Hl; [|discriminate].
-      destruct (encode_t t rest) as [bs'| |] eqn:Hr; try discriminate. injection H as <-.
-      destruct (lookup_forall runD t HD r n x Hl) as (lo & hi & v & HP & Hrr & Hx).
-      unfold runD in HP. rewrite !andb_true_iff in HP. destruct HP as [[[H1 H2] H3] H4].
-      apply N.eqb_eq in H1. apply N.leb_le in H2. apply N.ltb_lt in H3. subst n.
-      pose proof (forall_in_sound _ _ _ H4 r Hrr) as H5. cbv beta in H5. rewrite <- Hx in H5.
-      change (N.to_nat 1) with 1%nat. rewrite be_bytes_1 by (clear - Hx Hrr H3; lia).
-      cbn [app decode_sb]. destruct (nth_error tbl (N.to_nat x)) as [r'|]; [|discriminate].
-      apply N.eqb_eq in H5. subst r'. rewrite (IH bs' eq_refl). reflexivity.
-  Qed.
-End SingleOctetDecode.
-
-Lemma ascii_D : checkD dec_sb_ascii enc_runs_ascii = true. Proof. vm_compute. reflexivity. Qed.
-Lemma latin1_D : checkD dec_sb_latin1 enc_runs_latin1 = true. Proof. vm_compute. reflexivity. Qed.
-Lemma cyrillic_D : checkD dec_sb_cyrillic enc_runs_cyrillic = true. Proof. vm_compute. reflexivity. Qed.
-Lemma hebrew_D : checkD dec_sb_hebrew enc_runs_hebrew = true. Proof. vm_compute. reflexivity. Qed.
-
-(* ------------------------------------------------------ UTF-16 round trip *)
-Lemma units_of_bytes_be16 u rest : u < 65536 ->
-  units_of_bytes (be16 u ++ rest) = option_map (cons u) (units_of_bytes rest).
-Proof.
-  intros Hu. unfold be16. cbn [app units_of_bytes].
-  replace ((u / 256) mod 256 * 256 + u mod 256) with u by lia. reflexivity.
-Qed.
-
-Lemma utf16_units_bound r : scalar r -> Forall (fun u => u < 65536) (utf16_units r).
-Proof.
-  intros Hs. unfold utf16_units. destruct (r <? 65536) eqn:E.
-  - apply N.ltb_lt in E. constructor; [exact E|constructor].
-  - apply N.ltb_ge in E. cbv zeta. destruct Hs as [Hs|Hs]; [lia|].
-    constructor; [lia|]. constructor; [lia|constructor].
-Qed.
-
-Lemma units_of_bytes_units us rest : Forall (fun u => u < 65536) us ->
-  units_of_bytes (flat_map be16 us ++ rest) = option_map (app us) (units_of_bytes rest).
-Proof.
-  induction 1 as [|u us Hu _ IH]; cbn [flat_map app].
-  - destruct (units_of_bytes rest); reflexivity.
-  - rewrite <- app_assoc, (units_of_bytes_be16 u _ Hu), IH. destruct (units_of_bytes rest); reflexivity.
-Qed.
-
-Lemma units_of_bytes_text : forall rs, Forall scalar rs ->
-  units_of_bytes (utf16be_text rs) = Some (flat_map utf16_units rs).
-Proof.
-  induction rs as [|r rest IH]; intros H; [reflexivity|].
-  inversion H as [|? ? H1 H2]; subst. unfold utf16be_text. cbn [flat_map]. unfold utf16be at 1.
-  rewrite (units_of_bytes_units _ _ (utf16_units_bound r H1)).
-  fold (utf16be_text rest). rewrite (IH H2). reflexivity.
-Qed.
-
-Lemma scalars_of_units_text : forall rs, Forall scalar rs ->
-  scalars_of_units (flat_map utf16_units rs) = Some rs.
-Proof.
-  induction rs as [|r rest IH]; intros H; [reflexivity|].
-  inversion H as [|? ? H1 H2]; subst. cbn [flat_map]. unfold utf16_units at 1.
-  destruct (r <? 65536) eqn:E.
-  - apply N.ltb_lt in E. cbn [app scalars_of_units].
-    assert (Hh : is_high r = false).
-    { unfold is_high. destruct H1 as [H1|H1]; apply andb_false_iff; [|right; apply N.ltb_ge; lia].
-      destruct (N.lt_ge_cases r 55296); [left; apply N.leb_gt; lia|lia]. }
-    assert (Hl : is_low r = false).
-    { unfold is_low. destruct H1 as [H1|H1]; apply andb_false_iff; [left; apply N.leb_gt; lia|right; apply N.ltb_ge; lia]. }
-    rewrite Hh, Hl, (IH H2). reflexivity.
-  - apply N.ltb_ge in E. cbv zeta. cbn [app scalars_of_units].
-    assert (Hr : r < 1114112) by (destruct H1; lia).
-    assert (Hh : is_high (55296 + (r - 65536) / 1024) = true).
-    { unfold is_high. apply andb_true_iff. split; [apply N.leb_le|apply N.ltb_lt]; lia. }
-    assert (Hl : is_low (56320 + (r - 65536) mod 1024) = true).
-    { unfold is_low. apply andb_true_iff. split; [apply N.leb_le|apply N.ltb_lt]; lia. }
-    rewrite Hh, Hl, (IH H2). cbn [option_map]. f_equal. f_equal. lia.
-Qed.
-
-Theorem ucs2_roundtrip : forall rs bs, Forall scalar rs ->
-  encode_t enc_runs_ucs2 rs = Ok bs -> decode_ucs2 bs = Ok rs.
-Proof.
-  intros rs bs Hs H. rewrite (ucs2_text rs Hs) in H. injection H as <-.
-  unfold decode_ucs2, utf16be_decode. rewrite (units_of_bytes_text rs Hs), (scalars_of_units_text rs Hs). reflexivity.
 Qed.
 
 (* --------------------------------------------------------- GSM 7-bit text *)
@@ -263,6 +168,49 @@ Lemma incl_cyrillic : incl_check (LCs CCyrillic) = true. Proof. vm_compute. refl
 Lemma incl_hebrew : incl_check (LCs CHebrew) = true. Proof. vm_compute. reflexivity. Qed.
 Lemma incl_sjis : incl_check (LCs CSjis) = true. Proof. vm_cast_no_check (eq_refl true). Qed.
 Lemma incl_euckr : incl_check (LCs CEuckr) = true. Proof. vm_cast_no_check (eq_refl true). Qed.
+
+(* ... and the committed known-bad sets are TIGHT: every rune of known/C09-D17-<c>.ranges is admitted by Validate(c)
+   and rejected by the encoder of c.  A stale file (after an upstream repair) or an enlarged one would otherwise
+   weaken every theorem that excludes the known-bad set, unnoticed. *)
+Definition tight_check (l : label) : bool :=
+  incl2 (known_bad_of l) (validate_ranges l) [] && disjoint_sorted (known_bad_of l) (accept_ranges l).
+
+Lemma tight_gsm7 : tight_check LGsm7 = true. Proof. vm_compute. reflexivity. Qed.
+Lemma tight_ascii : tight_check (LCs CAscii) = true. Proof. vm_compute. reflexivity. Qed.
+Lemma tight_latin1 : tight_check (LCs CLatin1) = true. Proof. vm_compute. reflexivity. Qed.
+Lemma tight_cyrillic : tight_check (LCs CCyrillic) = true. Proof. vm_compute. reflexivity. Qed.
+Lemma tight_hebrew : tight_check (LCs CHebrew) = true. Proof. vm_compute. reflexivity. Qed.
+Lemma tight_sjis : tight_check (LCs CSjis) = true. Proof. vm_cast_no_check (eq_refl true). Qed.
+Lemma tight_euckr : tight_check (LCs CEuckr) = true. Proof. vm_cast_no_check (eq_refl true). Qed.
+
+Lemma tight_sound l r : tight_check l = true -> mem r (known_bad_of l) = true ->
+  mem r (validate_ranges l) = true /\ mem r (accept_ranges l) = false.
+Proof.
+  unfold tight_check. rewrite andb_true_iff. intros [Hi Hd] Hr. split.
+  - pose proof (incl2_sound _ _ _ Hi r Hr) as H. cbn [mem existsb] in H. rewrite orb_false_r in H. exact H.
+  - exact (disjoint_sorted_sound _ _ Hd r Hr).
+Qed.
+
+Theorem known_bad_tight l r : mem r (known_bad_of l) = true ->
+  mem r (validate_ranges l) = true /\ mem r (accept_ranges l) = false.
+Proof.
+  intros Hr. destruct l as [|c].
+  - exact (tight_sound _ r tight_gsm7 Hr).
+  - destruct c.
+    + exact (tight_sound _ r tight_ascii Hr).
+    + exact (tight_sound _ r tight_latin1 Hr).
+    + exact (tight_sound _ r tight_sjis Hr).
+    + exact (tight_sound _ r tight_cyrillic Hr).
+    + exact (tight_sound _ r tight_hebrew Hr).
+    + discriminate Hr.
+    + discriminate Hr.
+    + discriminate Hr.
+    + exact (tight_sound _ r tight_euckr Hr).
+Qed.
+
+(* hence an excluded rune really is a rune the detected coding cannot carry: its one-character text is rejected *)
+Lemma lookup_none_enc_rune t r : mem r (ranges_of t) = false -> enc_rune_t t r = None.
+Proof. intros H. unfold enc_rune_t. apply lookup_None_mem in H. rewrite H. reflexivity. Qed.
 
 Lemma accepted l rs : l <> LCs CUcs2 -> incl_check l = true -> validates l rs = true ->
   (forall r, In r rs -> mem r (known_bad_of l) = false) ->
@@ -585,4 +533,29 @@ Proof.
   destruct (compose_parse rs Hs Hk Hc) as [->|(bs & -> & Hp)].
   - left. split; reflexivity.
   - right. cbn [fst snd]. split; [reflexivity|]. split; [reflexivity|exact Hp].
+Qed.
+
+(* the model of Compose is one of the implementations the observation check accepts (so comparing observations with
+   compose_obs_ok demands nothing the model itself does not do) *)
+Lemma beq_bytes_refl : forall b : bytes, beq_bytes b b = true.
+Proof. induction b as [|x b IH]; cbn [beq_bytes]; [reflexivity|]. rewrite N.eqb_refl, IH. reflexivity. Qed.
+Lemma g7_septets_err : forall rs e, g7_septets rs = Err e -> e = EText.
+Proof.
+  induction rs as [|r t IH]; intros e H; cbn [g7_septets] in H; [discriminate|].
+  destruct (g7_rune r); [|congruence]. destruct (g7_septets t) as [ss|e'|]; try discriminate.
+  injection H as <-. exact (IH e' eq_refl).
+Qed.
+Lemma encode_l_err l rs e : encode_l l rs = Err e -> e = EText.
+Proof.
+  destruct l as [|c]; cbn [encode_l]; [|apply encode_err].
+  unfold g7_encode. destruct (g7_septets rs) as [ss|e'|] eqn:E; try discriminate. intros [= <-]. exact (g7_septets_err rs e' E).
+Qed.
+Theorem compose_obs_model rs : compose_obs_ok rs (compose rs) = true.
+Proof.
+  unfold compose_obs_ok, compose. cbv zeta. destruct (140 <? splitter_len (best rs) rs) eqn:E.
+  - destruct (encode_l (best rs) rs); reflexivity.
+  - destruct (encode_l (best rs) rs) as [bs|e|] eqn:X.
+    + rewrite N.eqb_refl, beq_bytes_refl. reflexivity.
+    + rewrite (encode_l_err _ _ _ X). reflexivity.
+    + reflexivity.
 Qed.
